@@ -380,18 +380,75 @@ func c14Run(c *core.Ctx) {
 			if dropped > 0 && c.Shard == 0 {
 				c.Cap(fmt.Sprintf("%s: %d of the source's short string literals are beyond the 32-word alphabet", h.name, dropped))
 			}
+			var lead []byte
 			emit := func(seq []string) {
 				var lab []byte
 				for _, w := range seq {
 					lab = append(append(lab, byte(len(w))), w...)
 				}
 				txt := []byte(strings.Join(seq, "."))
-				for _, body := range [][]byte{lab, txt} {
+				cat := []byte(strings.Join(seq, ""))
+				for _, body := range [][]byte{lab, txt, cat} {
 					run(body)
 					if len(body) <= 255 {
 						run(append([]byte{byte(len(body))}, body...))
 						run(append(append([]byte{byte(len(body))}, body...), 0x01, 'a'))
 					}
+					// behind a leading type / format octet from the source's own small constants
+					for _, t := range lead {
+						run(append([]byte{t}, body...))
+					}
+				}
+			}
+			// leading octets: the integer literals below 0x20 of the helper's source and their combinations as
+			// (high nibble, low nibble) — type of identity and format bits live there
+			{
+				seen := map[byte]bool{}
+				var small []byte
+				for _, v := range c14SourceAlphabet(h.name, alphaLong) {
+					if v < 0x08 {
+						small = append(small, v)
+					}
+				}
+				for _, hi := range small {
+					for _, lo := range small {
+						b := hi<<4 | lo
+						if !seen[b] {
+							seen[b] = true
+							lead = append(lead, b)
+						}
+					}
+				}
+				if len(words) > 12 {
+					lead = nil // only for helpers with a small word alphabet (their own file)
+				}
+			}
+			four := len(words) <= 10 || thorough && len(words) <= 12
+			// novelty-directed depth: sequences of up to five of the words the pinned tree does not have
+			if novel := c14NovelWords(h.name); len(novel) > 0 {
+				for ni, w1 := range novel {
+					u++
+					if !c.Mine(u) {
+						continue
+					}
+					if !c.Begin("novel-words", h.name, c14Case{Helper: h.name, Hex: hexs([]byte(w1))}) {
+						continue
+					}
+					var rec func(seq []string)
+					rec = func(seq []string) {
+						if len(seq) >= 4 {
+							emit(seq)
+						}
+						if len(seq) == 5 || len(seq) == 4 && len(novel) > 6 {
+							return
+						}
+						for _, w := range novel {
+							rec(append(seq, w))
+						}
+					}
+					rec([]string{w1})
+					_ = ni
+					c.Tick()
 				}
 			}
 			for wi, w1 := range words {
@@ -407,7 +464,7 @@ func c14Run(c *core.Ctx) {
 					emit([]string{w1, w2})
 					for _, w3 := range words {
 						emit([]string{w1, w2, w3})
-						if thorough && len(words) <= 12 {
+						if four {
 							for _, w4 := range words {
 								emit([]string{w1, w2, w3, w4})
 							}
